@@ -18,14 +18,16 @@ theorem init_exclusive {s : St} (h : Reachable s) (t t' : Tid)
     (ht : s.pcs t = .init ∨ s.pcs t = .initDone) (ht' : s.pcs t' = .init ∨ s.pcs t' = .initDone) : t = t' :=
   OnceP.init_exclusive h t t' ht ht'
 
-/-- **no call returns before the initialiser has completed** (and it has then run exactly once) -/
+/-- **no call returns before the initialiser has completed** (and it has then run exactly once) — in a model where the futex wait
+    may return at any time (spurious wake-ups, signals), not only when woken -/
 theorem no_return_before_done {s : St} (h : Reachable s) (t : Tid) (hr : s.pcs t = .ret) :
     s.sh.initEnded = true ∧ s.sh.initStarted = 1 := OnceP.no_return_before_done h t hr
 
-/-- **callers that arrive while it is in progress are released when it completes**: a sleeping caller can step, or the
+/-- **callers that arrive while it is in progress are released when it completes**: a sleeping caller is owed a return by the
+    kernel (the word changed, or it has been woken), or the
     owner is still before / inside its wake-up — so once the owner is done nobody stays asleep -/
 theorem sleeper_not_stuck {s : St} (h : Reachable s) (u : Tid) (e : Gate) (hu : s.pcs u = .sleep e) :
-    (step s.sh u (s.pcs u) ≠ []) ∨ (∃ o, (s.pcs o = .init ∨ s.pcs o = .initDone ∨ s.pcs o = .wake)) :=
+    properWake s.sh u e ∨ (∃ o, (s.pcs o = .init ∨ s.pcs o = .initDone ∨ s.pcs o = .wake)) :=
   OnceP.sleeper_not_stuck h u e hu
 
 /-- later calls return immediately without running it again: from DONE the only step of a new caller is the return -/
